@@ -246,6 +246,15 @@ impl<T> DataReaderEntity<T> {
             }
         });
 
+        // The samples that belong to the same instance are consecutive in the returned collection
+        // (DDS 2.2.2.5.3.8). Keep the instances in the order of their first sample and the samples
+        // of each instance in storage order.
+        samples.sort_by_key(|(_, sample_info)| {
+            instances_in_collection
+                .iter()
+                .position(|x| x.handle() == &sample_info.instance_handle)
+        });
+
         // After the collection is created, update the relative generation rank values and mark the read instances as viewed
         for handle in instances_in_collection.iter().map(|x| x.handle()) {
             let most_recent_sample_absolute_generation_rank = samples
